@@ -7,6 +7,7 @@ package main
 // per participant (byte 0 of the body names the participant); encoders are sinks.
 
 import (
+	"git.torproject.org/pluggable-transports/snowflake.git/v2/common/bridgefingerprint"
 	"git.torproject.org/pluggable-transports/snowflake.git/v2/common/messages"
 	"git.torproject.org/pluggable-transports/snowflake.git/v2/internal/verifapi"
 )
@@ -92,6 +93,8 @@ type verifClientRec struct {
 	rpcErr bool
 }
 
+var verifListLacksDefault bool
+
 func verifBrokerScenario(P, C int, rogue bool, symNAT bool) {
 	ctx := verifNewContext()
 	i := &IPC{ctx}
@@ -103,6 +106,13 @@ func verifBrokerScenario(P, C int, rogue bool, symNAT bool) {
 			verifProxyNAT[p] = "restricted"
 		}
 	}
+	// the operator's bridge list need not contain the compiled-in default bridge (verifFP1 is its
+	// fingerprint): then a client naming it - or naming none - names an absent bridge
+	if verifapi.Param("vary_list", 0) == 1 && verifapi.Bool("bridge list without the default bridge") {
+		fp1, _ := bridgefingerprint.FingerprintFromHexString(verifFP1)
+		delete(ctx.bridgeList.(*bridgeListHolder).bridgeInfo, fp1)
+		verifListLacksDefault = true
+	}
 	var fpChoice [2]int
 	for c := 0; c < C; c++ {
 		verifClientNAT[c] = "unknown"
@@ -111,6 +121,9 @@ func verifBrokerScenario(P, C int, rogue bool, symNAT bool) {
 		}
 		fpChoice[c] = verifapi.Concrete(verifapi.Choice("client.bridge", 3))
 		verifClientFP[c] = [3]string{verifFP1, verifFP2, verifFPAbsent}[fpChoice[c]]
+		if fpChoice[c] == 0 && verifListLacksDefault {
+			fpChoice[c] = 2 // absent
+		}
 	}
 	go func() { verifapi.Daemon(); ctx.Broker() }()
 	for p := 0; p < P; p++ {
@@ -179,6 +192,9 @@ func verifBrokerScenario(P, C int, rogue bool, symNAT bool) {
 	verifapi.Assert(ctx.restrictedSnowflakes.Len() == 0, "C04: leftover proxy in the restricted pool")
 	var fresh []byte
 	verifClientFP[0], verifClientNAT[0] = verifFP1, "unknown"
+	if verifListLacksDefault {
+		verifClientFP[0] = verifFP2 // a bridge that is in the list
+	}
 	i.ClientOffers(messages.Arg{Body: []byte{0}}, &fresh)
 	verifapi.Assert(len(fresh) == 2 && fresh[0] == 'e' && fresh[1] == 1, "C04: a fresh client is told there are no proxies")
 	// ---- C19: each event is counted exactly once in the counter the metrics spec names for it
